@@ -218,17 +218,23 @@ class HttpWebServerPlugin(HttpProtocolHandlerPlugin):
         if self.request.is_complete and \
                 self.request.is_http_1_1_keep_alive and \
                 self.route is not None:
-            if self.pipeline_request is None:
-                self.pipeline_request = HttpParser(
-                    httpParserTypes.REQUEST_PARSER,
-                )
-            self.pipeline_request.parse(raw)
-            if self.pipeline_request.is_complete:
+            remainder: Optional[memoryview] = raw
+            # Bytes following a complete request in the
+            # same read belong to the next request.
+            while remainder:
+                if self.pipeline_request is None:
+                    self.pipeline_request = HttpParser(
+                        httpParserTypes.REQUEST_PARSER,
+                    )
+                self.pipeline_request.parse(remainder)
+                if not self.pipeline_request.is_complete:
+                    break
                 self.route.handle_request(self.pipeline_request)
                 if not self.pipeline_request.is_http_1_1_keep_alive:
                     raise HttpProtocolException(
                         'Pipelined request is not keep-alive, will tear down request...',
                     )
+                remainder = self.pipeline_request.buffer
                 self.pipeline_request = None
 
     def on_response_chunk(self, chunk: List[memoryview]) -> List[memoryview]:
